@@ -11,7 +11,8 @@
 (*   op                  "read" | "write" | BinOps | ScalarOps |           *)
 (*                       "is_identity" | "swap_rows" | "fill"              *)
 (*   i, j                write position / rows to swap                     *)
-(*   s                   scalar / fill value                               *)
+(*   s                   scalar / fill value (a graded number, Graded.tla: *)
+(*                       a small integer, or TINY / NTINY / HUGE)          *)
 (*   bkind, bml, bmu     storage of the second operand B (binary ops)      *)
 (*   bpat                fill pattern of B                                 *)
 (*   op2                 "none", or a SECOND operation applied to the      *)
@@ -27,7 +28,7 @@ EXTENDS Matrix, MatrixContract
 NOWRITE == -1000
 WRITEVAL == 77            \* value used by the single extra write
 
-Pats == {"zero", "dist", "eye", "eyex", "eyel", "eyeu", "sq"}
+Pats == {"zero", "dist", "eye", "eyex", "eyel", "eyeu", "sq", "tiny", "eyet"}
 
 \* value written at (i,j) by pattern pat (0-based), or NOWRITE
 PatVal(pat, n, i, j) ==
@@ -38,6 +39,8 @@ PatVal(pat, n, i, j) ==
     [] pat = "eyex" -> IF i = j THEN (IF i = n - 1 THEN 2 ELSE 1) ELSE NOWRITE
     [] pat = "eyel" -> IF i = j THEN 1 ELSE IF i = n - 1 /\ j = n - 2 THEN 3 ELSE NOWRITE
     [] pat = "eyeu" -> IF i = j THEN 1 ELSE IF i = 0 /\ j = 1 THEN 3 ELSE NOWRITE
+    [] pat = "tiny" -> G(1 + i * n + j, -1)                            \* all entries distinct, non-zero, below 2^-75
+    [] pat = "eyet" -> IF i = j THEN 1 ELSE IF i = n - 1 /\ j = n - 2 THEN TINY ELSE NOWRITE   \* identity up to 2^-80: NOT an identity
 
 \* the writes of a pattern into a matrix with storage st: row-major over the writable cells
 FillWrites(pat, st, n) ==
@@ -50,7 +53,7 @@ FillWrites(pat, st, n) ==
 \* that keep or overwrite everything, zeros for the identity-like patterns
 InitData(ctor, pat, n) ==
   LET len == IF ctor = "from_vec" THEN n * n ELSE IF ctor = "diagonal" THEN n ELSE 0
-  IN IF pat \in {"zero", "dist", "sq"} THEN [x \in 1..len |-> 40 + x] ELSE [x \in 1..len |-> 0]
+  IN IF pat \in {"zero", "dist", "sq", "tiny"} THEN [x \in 1..len |-> 40 + x] ELSE [x \in 1..len |-> 0]
 
 \* second operand: canonical constructor of each storage kind
 BCtor(bkind) == CASE bkind = "I" -> "identity" [] bkind = "F" -> "zeros" [] bkind = "B" -> "banded"
